@@ -1,4 +1,4 @@
-import QuantemModel.Lemmas.RegistrationSpectral
+import QuantemModel.Lemmas.RegistrationExt
 /-!
 C13 — image registration (Model/Registration.lean, read at the carrier ℝ).
 Only property theorems and non-vacuity examples live here.
@@ -501,6 +501,146 @@ theorem identical_zero_upsampled_np_delta (up : ℕ) (hup : 1 ≤ up) :
       (ccF (dft2At 3 3 deltaImg) (dft2At 3 3 deltaImg)) = (0, 0) :=
   identical_zero_upsampled_np_of_axis_coeffs (by norm_num) (by norm_num) deltaImg deltaImg_uniquePeak up hup
     (Or.inl (by rw [deltaImg_dft]; norm_num)) (Or.inl (by rw [deltaImg_dft]; norm_num))
+
+/-! ### growth round 5: every upsampling factor, `max_shift`, the entry points with their dispatch -/
+
+/-- **The entry points are the branch functions** (`Model/RegistrationExt.lean`): for every factor —
+`0` included — `cross_correlation_shift` takes the parabolic branch iff `upsample_factor ≤ 1`,
+`cross_correlation_shift_torch` iff `upsample_factor ≤ 2`; the guarded parabola of the NumPy variant
+(`0.0` for a flat triple) is the plain quotient over ℝ. -/
+theorem entry_points_dispatch (M N up : ℕ) (cs c : ℕ → ℕ → ℝ) (F : ℕ → ℕ → Cx ℝ) :
+    shiftNp M N up cs c F = (if up ≤ 1 then shiftNp1 M N cs c else shiftNpUp M N up cs c F) ∧
+    shiftTorch M N up c F = (if up ≤ 2 then shiftTorch2 M N c else shiftTorchUp M N up c F) ∧
+    (shiftTorch M N up c F).1 = centre (alignTorch M N up c F).1 M :=
+  ⟨shiftNp_eq M N up cs c F, shiftTorch_eq M N up c F, rfl⟩
+
+/-- **The upsampled patch does not see an integer translation**: for an integer-shifted copy the patch
+`dft_upsample(F_ref·conj(F_im), up, coarse peak)` (NumPy) / `dftUpsample_torch(conj(cc), up, upsampleCenter)`
+(torch) is, entry by entry, the patch of identical images around zero — DFT shift theorem plus the
+periodicity of the matrix-multiply kernels in the integer part of the sample position. -/
+theorem upsampled_patch_shift_invariant {M N up : ℕ} (hM : 0 < M) (hN : 0 < N) (hup : 0 < up) (x : ℕ → ℕ → ℝ) (a b : ℤ) :
+    patchNp M N up (ccF (dft2At M N x) (dft2At M N (rollImg M N x a b))) ((wrap M (-a) : ℕ) : ℝ) ((wrap N (-b) : ℕ) : ℝ)
+        = patchNp M N up (ccF (dft2At M N x) (dft2At M N x)) 0 0 ∧
+    patchTorch M N up (conjF (ccF (dft2At M N x) (dft2At M N (rollImg M N x a b))))
+        (centerTorch up (((wrap M (-a) : ℕ) : ℝ))) (centerTorch up (((wrap N (-b) : ℕ) : ℝ)))
+        = patchTorch M N up (conjF (ccF (dft2At M N x) (dft2At M N x))) (centerTorch up (0 : ℝ)) (centerTorch up (0 : ℝ)) :=
+  ⟨patchNp_roll hM hN hup x a b, patchTorch_roll hM hN hup x a b⟩
+
+/-- **Integer-shift exactness of `cross_correlation_shift` for EVERY upsampling factor and `max_shift`
+setting**, on the tables the code computes (FFT formula for `cc_real`, `fft2(x)·conj(fft2(y))` for the
+kernel): for every shape, image with a unique correlation peak, integer translation `(a, b)` anywhere in
+or outside the cell, factor `up = 0, 1, 2, …`, and `max_shift` that leaves the true lag inside the search
+disc, the entry point returns exactly the representative of `(-a, -b)` in `[-M/2, M/2) × [-N/2, N/2)`.
+For `up ≥ 2` the patch of identical images must have a strict maximum (`hstrict`; exactly characterised by
+`patch_strict_max_iff_np`, implied by non-zero lowest Fourier coefficients — next theorem). -/
+theorem integer_shift_np_every_factor {M N : ℕ} (hM : 0 < M) (hN : 0 < N) (x : ℕ → ℕ → ℝ)
+    (hx : UniquePeak M N x) (hpos : 0 < cc M N x x 0 0) (a b : ℤ) (up : ℕ) (ms : Option ℝ)
+    (hvis : ∀ m, ms = some m →
+      ((freq M (wrap M (-a)) * freq M (wrap M (-a)) + freq N (wrap N (-b)) * freq N (wrap N (-b)) : ℤ) : ℝ) < m * m)
+    (hstrict : 2 ≤ up → UniqueMaxAt (sideNp up) (sideNp up)
+      (patchNp M N up (ccF (dft2At M N x) (dft2At M N x)) 0 0) (du up) (du up)) :
+    IsCentredRep M (-a) (shiftNp M N up (masked M N ms (ccRealFFT M N x (rollImg M N x a b)))
+        (ccRealFFT M N x (rollImg M N x a b)) (ccF (dft2At M N x) (dft2At M N (rollImg M N x a b)))).1 ∧
+    IsCentredRep N (-b) (shiftNp M N up (masked M N ms (ccRealFFT M N x (rollImg M N x a b)))
+        (ccRealFFT M N x (rollImg M N x a b)) (ccF (dft2At M N x) (dft2At M N (rollImg M N x a b)))).2 := by
+  rw [correlation_theorem hM hN]
+  have hmax := corrTable_roll_uniqueMax hM hN x hx a b
+  have hpk : 0 < corrTable M N x (rollImg M N x a b) (wrap M (-a)) (wrap N (-b)) := by
+    rw [corrTable_roll_peak hM hN]; exact hpos
+  have hcs := masked_uniqueMax_inside (corrTable M N x (rollImg M N x a b)) ms _ _ hvis hmax hpk
+  have hco := coarseNp_roll_of hM hN x a b _ hcs
+  have hfin : IsCentredRep M (-a) (centre (((wrap M (-a) : ℕ) : ℝ)) M) ∧ IsCentredRep N (-b) (centre (((wrap N (-b) : ℕ) : ℝ)) N) :=
+    ⟨centre_nat_isRep (wrap_lt hM _) _ (wrap_neg_dvd hM a), centre_nat_isRep (wrap_lt hN _) _ (wrap_neg_dvd hN b)⟩
+  rw [shiftNp_eq]
+  split
+  · simp only [shiftNp1, hco.1, hco.2]
+    exact hfin
+  · have hup : 2 ≤ up := by omega
+    unfold shiftNpUp
+    simp only [hco.1, hco.2]
+    rw [patchNp_roll hM hN (by omega) x a b, upsampledNpOf_centre M N up (by omega) _ _ _ (hstrict hup)]
+    exact hfin
+
+/-- … with the strictness hypothesis discharged: at least 3 × 3 pixels and non-zero lowest Fourier
+coefficients on both axes. -/
+theorem integer_shift_np_every_factor_of_axis_coeffs {M N : ℕ} (hM : 3 ≤ M) (hN : 3 ≤ N) (x : ℕ → ℕ → ℝ)
+    (hx : UniquePeak M N x) (hpos : 0 < cc M N x x 0 0) (a b : ℤ) (up : ℕ) (ms : Option ℝ)
+    (hvis : ∀ m, ms = some m →
+      ((freq M (wrap M (-a)) * freq M (wrap M (-a)) + freq N (wrap N (-b)) * freq N (wrap N (-b)) : ℤ) : ℝ) < m * m)
+    (h10 : (dft2At M N x 1 0).re ≠ 0 ∨ (dft2At M N x 1 0).im ≠ 0)
+    (h01 : (dft2At M N x 0 1).re ≠ 0 ∨ (dft2At M N x 0 1).im ≠ 0) :
+    IsCentredRep M (-a) (shiftNp M N up (masked M N ms (ccRealFFT M N x (rollImg M N x a b)))
+        (ccRealFFT M N x (rollImg M N x a b)) (ccF (dft2At M N x) (dft2At M N (rollImg M N x a b)))).1 ∧
+    IsCentredRep N (-b) (shiftNp M N up (masked M N ms (ccRealFFT M N x (rollImg M N x a b)))
+        (ccRealFFT M N x (rollImg M N x a b)) (ccF (dft2At M N x) (dft2At M N (rollImg M N x a b)))).2 :=
+  integer_shift_np_every_factor (by omega) (by omega) x hx hpos a b up ms hvis
+    (fun hup => patch_strict_of_axis_coeffs_np hM hN (by omega) _ h10 h01)
+
+/-- **Integer-shift exactness of `cross_correlation_shift_torch` for EVERY upsampling factor**
+(`up ≤ 2`: half-pixel parabolic branch, `up ≥ 3`: `upsampled_correlation_torch`), on the FFT tables. -/
+theorem integer_shift_torch_every_factor {M N : ℕ} (hM : 0 < M) (hN : 0 < N) (x : ℕ → ℕ → ℝ)
+    (hx : UniquePeak M N x) (a b : ℤ) (up : ℕ)
+    (hstrict : 3 ≤ up → UniqueMaxAt (sideTorch up) (sideTorch up)
+      (patchTorch M N up (conjF (ccF (dft2At M N x) (dft2At M N x))) (centerTorch up (0 : ℝ)) (centerTorch up (0 : ℝ)))
+      (gShift up) (gShift up)) :
+    IsCentredRep M (-a) (shiftTorch M N up (ccRealFFT M N x (rollImg M N x a b))
+        (ccF (dft2At M N x) (dft2At M N (rollImg M N x a b)))).1 ∧
+    IsCentredRep N (-b) (shiftTorch M N up (ccRealFFT M N x (rollImg M N x a b))
+        (ccF (dft2At M N x) (dft2At M N (rollImg M N x a b)))).2 := by
+  rw [correlation_theorem hM hN, shiftTorch_eq]
+  split
+  · exact integer_shift_torch hM hN x hx a b
+  · have hup : 3 ≤ up := by omega
+    have hco := coarseTorch_roll hM hN x hx a b
+    unfold shiftTorchUp upsampledTorch
+    simp only [hco.1, hco.2]
+    rw [snapTorch_nat (by omega), snapTorch_nat (by omega), patchTorch_roll hM hN (by omega) x a b,
+      upsampledTorchOf_centre M N up (by omega) _ _ _ (hstrict hup)]
+    exact ⟨centre_nat_isRep (wrap_lt hM _) _ (wrap_neg_dvd hM a), centre_nat_isRep (wrap_lt hN _) _ (wrap_neg_dvd hN b)⟩
+
+/-- … with the strictness hypothesis discharged as for the NumPy variant. -/
+theorem integer_shift_torch_every_factor_of_axis_coeffs {M N : ℕ} (hM : 3 ≤ M) (hN : 3 ≤ N) (x : ℕ → ℕ → ℝ)
+    (hx : UniquePeak M N x) (a b : ℤ) (up : ℕ)
+    (h10 : (dft2At M N x 1 0).re ≠ 0 ∨ (dft2At M N x 1 0).im ≠ 0)
+    (h01 : (dft2At M N x 0 1).re ≠ 0 ∨ (dft2At M N x 0 1).im ≠ 0) :
+    IsCentredRep M (-a) (shiftTorch M N up (ccRealFFT M N x (rollImg M N x a b))
+        (ccF (dft2At M N x) (dft2At M N (rollImg M N x a b)))).1 ∧
+    IsCentredRep N (-b) (shiftTorch M N up (ccRealFFT M N x (rollImg M N x a b))
+        (ccF (dft2At M N x) (dft2At M N (rollImg M N x a b)))).2 :=
+  integer_shift_torch_every_factor (by omega) (by omega) x hx a b up (fun hup => by
+    have h := patch_strict_of_axis_coeffs_torch hM hN (by omega : 1 ≤ up) (dft2At M N x) h10 h01
+    rwa [snapTorch_zero] at h)
+
+/-- the centred representative of `0` is `0`: with `a = b = 0` the two theorems above say that identical
+images give exactly `(0, 0)` through either entry point, at every factor and `max_shift` setting -/
+theorem isCentredRep_zero {M : ℕ} (hM : 0 < M) {v : ℝ} (h : IsCentredRep M (-0) v) : v = 0 := by
+  obtain ⟨r, hv, ⟨c, hc⟩, h1, h2⟩ := h
+  have hr : r = (M : ℤ) * c := by linarith
+  have hM' : (0 : ℤ) < M := by exact_mod_cast hM
+  have hc0 : c = 0 := by
+    by_contra hne
+    rcases lt_or_gt_of_ne hne with hlt | hgt
+    · have : (M : ℤ) * c ≤ (M : ℤ) * (-1) := Int.mul_le_mul_of_nonneg_left (by omega) (le_of_lt hM')
+      omega
+    · have : (M : ℤ) * 1 ≤ (M : ℤ) * c := Int.mul_le_mul_of_nonneg_left (by omega) (le_of_lt hM')
+      omega
+  rw [hv, hr, hc0]; simp
+
+/-- **Non-vacuity, every hypothesis discharged**: the 3 × 3 single-pixel image translated by `(1, 2)` is
+located exactly by the NumPy entry point at every factor `up` (0, 1, 2, …, 64, …), with `max_shift = 2`. -/
+theorem integer_shift_np_every_factor_delta (up : ℕ) :
+    IsCentredRep 3 (-1) (shiftNp 3 3 up (masked 3 3 (some 2) (ccRealFFT 3 3 deltaImg (rollImg 3 3 deltaImg 1 2)))
+        (ccRealFFT 3 3 deltaImg (rollImg 3 3 deltaImg 1 2)) (ccF (dft2At 3 3 deltaImg) (dft2At 3 3 (rollImg 3 3 deltaImg 1 2)))).1 ∧
+    IsCentredRep 3 (-2) (shiftNp 3 3 up (masked 3 3 (some 2) (ccRealFFT 3 3 deltaImg (rollImg 3 3 deltaImg 1 2)))
+        (ccRealFFT 3 3 deltaImg (rollImg 3 3 deltaImg 1 2)) (ccF (dft2At 3 3 deltaImg) (dft2At 3 3 (rollImg 3 3 deltaImg 1 2)))).2 := by
+  refine integer_shift_np_every_factor_of_axis_coeffs (by norm_num) (by norm_num) deltaImg deltaImg_uniquePeak ?_ 1 2 up (some 2) ?_
+    (Or.inl (by rw [deltaImg_dft]; norm_num)) (Or.inl (by rw [deltaImg_dft]; norm_num))
+  · rw [cc_eq]; simp [Finset.sum_range_succ, deltaImg, wrap]
+  · intro m hm
+    cases hm
+    have h1 : freq 3 (wrap 3 (-1)) = -1 := by decide
+    have h2 : freq 3 (wrap 3 (-2)) = 1 := by decide
+    rw [h1, h2]; norm_num
 
 /-! ### non-vacuity -/
 
